@@ -1,1 +1,3 @@
-fn main() {}
+fn main() {
+    vcore::runner::main_for(fam_cw1::Cw1Family)
+}
